@@ -14,7 +14,10 @@ PID = "C16"
 
 def _types():
     return [("int", int), ("float", float), ("Fraction", F), ("np.float64", np.float64), ("np.float32", np.float32),
-            ("np.int64", np.int64)]
+            ("np.int64", np.int64), ("np.int32", np.int32), ("np.int8", np.int8),
+            # normalising is invariant under scaling: tiny (or huge) raw values with a non-zero normaliser keep their ratios
+            ("float*2^-70", lambda v: float(v) * 2.0 ** -70), ("np.float64*2^-40", lambda v: np.float64(v) * 2.0 ** -40),
+            ("float*2^60", lambda v: float(v) * 2.0 ** 60)]
 
 
 def norm_case(ctx, rec):
@@ -44,19 +47,19 @@ def norm_case(ctx, rec):
                           "values %s (%s): normalised %s, specification %s" % (vals, tname, {k: str(v) for k, v in got.items()}, [str(w) for w in want]),
                           rec)
     # through the public method of an explainer whose importance trackers hold exactly these values
-    for dyn in (False, True):
+    for dyn, unit in ((False, 1.0), (True, 1.0), (False, 2.0 ** -70), (True, 2.0 ** -45)):
         ex = IncrementalPFI(lambda x: {"output": 0.0}, lambda y, p: 0.0, names, dynamic_setting=dyn, smoothing_alpha=1.0)
         if not hasattr(ex, "_importance_trackers"):
             ctx.skip("norm.method (anchored attribute _importance_trackers not present)")
             continue
-        ex._importance_trackers.update({nm: np.float64(v) for nm, v in zip(names, vals)})
+        ex._importance_trackers.update({nm: np.float64(v) * unit for nm, v in zip(names, vals)})
         with warnings.catch_warnings():
             warnings.simplefilter("ignore")
             got = ex.get_normalized_importance_values(mode=rec["mode"])
         bad = [nm for nm, w in zip(names, want) if not math.isfinite(float(got[nm])) or abs(float(got[nm]) - float(w)) > 1e-9 * (1 + abs(float(w)))]
         ctx.count_clause("norm.method")
         if bad:
-            ctx.violation("norm.method", "mode=%s zero_normaliser=%s" % (rec["mode"], rec["factor"] == 0),
+            ctx.violation("norm.method", "mode=%s zero_normaliser=%s unit=%g" % (rec["mode"], rec["factor"] == 0, unit),
                           "get_normalized_importance_values(%s) on tracked values %s: %s, specification %s" % (
                               rec["mode"], vals, {k: float(v) for k, v in got.items()}, [str(w) for w in want]), rec)
 
